@@ -36,6 +36,10 @@ BUILD_STUBS = [
      'params': [['uid', 'pk', None], ['args', 'va', None]]},
     {'name': 'n5', 'kind': 'inst',
      'params': [['uid', 'pk', None], ['x', 'pk', 'v']]},
+    # tags attached by annotation (and a cold type-hints cache per run)
+    {'name': 'n6', 'kind': 'func',
+     'params': [['uid', 'pk', None], ['x', 'pk', 'v', ['T1']],
+                ['y', 'pk', 'v', ['U0', 'T0']], ['k', 'ko', 'v']]},
 ]
 SLOTS = {
     'n0': (['x', 'y', 'z'], False, False),
@@ -44,6 +48,7 @@ SLOTS = {
     'N3': (['x', 'y'], False, False),
     'n4': ([], True, False),
     'n5': (['x'], False, False),
+    'n6': (['x', 'y', 'k'], False, False),
 }
 POSITIONAL = {'n1': ['uid', 'x']}  # positional-only names, in order
 
